@@ -70,6 +70,15 @@ func specsC02(tier string) []seqmc.Spec {
 		for _, ts := range tss {
 			cfg.ops = append(cfg.ops, op{kind: "multi", target: "t", ts: ts, ups: []updSpec{{ps("x"), 1}}, dels: []pathSpec{ps("y")}})
 		}
+		// bundles of several updates: each member is judged on its own (accepted,
+		// stale, identical, suppressed as unchanged) and every leaf ends up holding
+		// ITS update, whatever happened to the members before it
+		for _, ts := range tss {
+			cfg.ops = append(cfg.ops,
+				op{kind: "multi", target: "t", ts: ts, ups: []updSpec{{ps("x"), 1}, {ps("y/z"), 1}}},
+				op{kind: "multi", target: "t", ts: ts, ups: []updSpec{{ps("x"), 1}, {ps("y/z"), 2}}},
+				op{kind: "multi", target: "t", ts: ts, ups: []updSpec{{ps("y/z"), 2}, {ps("x"), 2}, {ps("y/z"), 1}}})
+		}
 		dts := append(append([]int64{}, tss...), tss[len(tss)-1]+1)
 		for _, q := range []string{"x", "y/z", "y", "*", "y/*", "k"} {
 			for _, ts := range dts {
@@ -136,6 +145,13 @@ func specsC03(tier string) []seqmc.Spec {
 			cfg.ops = append(cfg.ops, atomic("t1", "k", ts, 1, ts))
 		}
 		cfg.ops = append(cfg.ops, upd("t2", "x", 1, 1), updO("t1", "o", "x", 1, 1))
+		// one relative path OBJECT ("s") sent under two prefixes, back to back or not
+		for _, pv := range []struct {
+			pre string
+			v   int64
+		}{{"i1", 1}, {"i2", 1}, {"i2", 2}} {
+			cfg.ops = append(cfg.ops, op{kind: "upd", target: "t1", ts: pv.v, prefix: ps(pv.pre), ups: []updSpec{{ps("s"), pv.v}}, sharedPath: true})
+		}
 		// decimals that differ only beyond float32 resolution, different precision
 		cfg.ops = append(cfg.ops, upd("t1", "dec", 1, 1001), upd("t1", "dec", 2, 1002), upd("t1", "dec", 3, 1001))
 		// the same number in another arm of the value oneof, same timestamp as an int update
